@@ -37,3 +37,18 @@ def generated(seed, n, chk=None, **kw):
         if chk is not None:
             chk.count("generated_accepted")
         yield ("gen:%d:%d" % (seed, tries), doc, g)
+
+
+def pool(chk, quick_n, thorough_n, **kw):
+    n = quick_n if chk.tier == "quick" else thorough_n
+    out = [(l, None, g) for l, g in example_graphs()]
+    out += list(generated(chk.seed, n, chk, **kw))
+    return out
+
+
+def payload_eq(impl_graph, model_pair):
+    """impl Graph vs the model's (asdict, index) answer"""
+    import wire
+    p = gen.graph_payload(impl_graph)
+    idx = p.pop("_index")
+    return wire.deep_eq(p, model_pair[0]) and wire.deep_eq(idx, model_pair[1])
